@@ -193,13 +193,15 @@ def accepts (A : Automaton) (w : List Nat) : Option Bool :=
   | none => none
   | some s0 => (A.strNext s0 w).map (·.isFinal)
 
+/-- the `i < source.num_successors()` arm of `EdgeIterator::next` -/
+def edgeAt (A : Automaton) (s : State) (i : Nat) : Option (ClassId × State) :=
+  match s.successor[i]? with
+  | none => none
+  | some j => (A.states[j]?).map (fun t => (ClassId.interval i, t))
+
 /-- what `edges(s)` yields, in order (`none` = an index panics while iterating) -/
 def edges (A : Automaton) (s : State) : Option (List (ClassId × State)) :=
-  match mapOpt (fun i =>
-      match s.successor[i]? with
-      | none => none
-      | some j => (A.states[j]?).map (fun t => (ClassId.interval i, t)))
-      (List.range s.numSuccessors) with
+  match mapOpt (A.edgeAt s) (List.range s.numSuccessors) with
   | none => none
   | some ivs =>
     match s.defaultSuccessor with
